@@ -95,12 +95,33 @@ Proof.
   destruct (D <? ((10000 + 1 - top) / slots + 1) * frames) eqn:E1; [|reflexivity]. nia.
 Qed.
 
-Lemma rec_fresh_exceeds_any_stack : forall D frames, 1 <= frames -> fault_raw D (FRecFresh frames (D + 1)) = RFatal.
+Lemma rec_fresh_exceeds_any_stack : forall S D frames, 1 <= frames -> fault_raw S D (FRecFresh frames (D + 1)) = RFatal.
 Proof.
-  intros D frames Hf. simpl. destruct (D <? frames * (D + 1)) eqn:E; [reflexivity|nia].
+  intros S D frames Hf. simpl. destruct (D <? frames * (D + 1)) eqn:E; [reflexivity|nia].
 Qed.
 
-Lemma rec_noslot_is_fatal : forall D top frames, fault_raw D (FRecShared top 0 frames) = RFatal.
+(* recursion through a method: stopped by the guard iff the method does not start a fresh storage *)
+Lemma rec_through_guarded : forall S D m slots frames depth,
+  mem_str m (s_fresh S) = false -> 1 <= slots -> (guard_limit + 2) * frames <= D ->
+  fault_raw S D (FRecThrough m slots frames depth) <> RFatal.
+Proof.
+  intros S D m slots frames depth Hm Hs HD. cbn [fault_raw]. rewrite Hm.
+  destruct (slots =? 0) eqn:E0; [lia|].
+  destruct (depth <=? (guard_limit + 1) / slots) eqn:E1.
+  - assert ((guard_limit + 1) / slots <= guard_limit + 1) by (apply N.div_le_upper_bound; nia).
+    destruct (D <? frames * depth) eqn:E2; [|discriminate]. unfold guard_limit in *. nia.
+  - rewrite (rec_shared_is_panic D 0 slots frames Hs HD). discriminate.
+Qed.
+
+Lemma rec_through_fresh_fatal : forall S D m slots frames,
+  mem_str m (s_fresh S) = true -> 1 <= frames ->
+  fault_raw S D (FRecThrough m slots frames (D + 1)) = RFatal.
+Proof.
+  intros S D m slots frames Hm Hf. cbn [fault_raw]. rewrite Hm.
+  destruct (D <? frames * (D + 1)) eqn:E; [reflexivity|nia].
+Qed.
+
+Lemma rec_noslot_is_fatal : forall S D top frames, fault_raw S D (FRecShared top 0 frames) = RFatal.
 Proof. reflexivity. Qed.
 
 (* ---------- panics, errors and try/catch on the calling goroutine ---------- *)
@@ -124,7 +145,7 @@ Proof. intros S D sc g p H; simpl; rewrite H; reflexivity. Qed.
 
 (* in the calling goroutine's own code a fault of class error or panic is an error of the evaluation *)
 Lemma main_fault_is_error : forall S D sc f,
-  (fault_raw D f = RErr \/ fault_raw D f = RPanic) ->
+  (fault_raw S D f = RErr \/ fault_raw S D f = RPanic) ->
   class S D sc (PLeaf f) = CErr /\ class S D sc (PCall (PLeaf f)) = CErr.
 Proof. intros S D sc f [H|H]; unfold class; simpl; rewrite H; split; reflexivity. Qed.
 
@@ -136,11 +157,11 @@ Proof.
   intros A f t l H. induction H as [|x r Hx Hr IH]; simpl; [reflexivity|]. rewrite Hx, IH. reflexivity.
 Qed.
 
-Lemma panic_free_no_panic : forall S D sc p, panic_free D p = true -> forall g, run S D sc g p <> RPanic.
+Lemma panic_free_no_panic : forall S D sc p, panic_free S D p = true -> forall g, run S D sc g p <> RPanic.
 Proof.
   intros S D sc p. induction p as [f|q IH|q IH|id q IH|id q IH|q IH|q IH|qs IH] using prog_ind_n;
     simpl; intros Hpf g.
-  - destruct (fault_raw D f); simpl in Hpf; congruence.
+  - destruct (fault_raw S D f); simpl in Hpf; congruence.
   - apply IH; assumption.
   - specialize (IH Hpf g). destruct (run S D sc g q); congruence.
   - specialize (IH Hpf (if sc id then Worker else g)).
@@ -153,11 +174,11 @@ Proof.
 Qed.
 
 Lemma guarded_no_fatal : forall S D sc p,
-  leaves_ok D p = true -> guarded S D p = true -> forall g, run S D sc g p <> RFatal.
+  leaves_ok S D p = true -> guarded S D p = true -> forall g, run S D sc g p <> RFatal.
 Proof.
   intros S D sc p. induction p as [f|q IH|q IH|id q IH|id q IH|q IH|q IH|qs IH] using prog_ind_n;
     simpl; intros Hl Hg g.
-  - destruct (fault_raw D f); simpl in Hl; congruence.
+  - destruct (fault_raw S D f); simpl in Hl; congruence.
   - apply IH; assumption.
   - specialize (IH Hl Hg g). destruct (run S D sc g q); try congruence. destruct (s_try S); congruence.
   - apply andb_prop in Hg. destruct Hg as [Hs Hg].
@@ -194,7 +215,7 @@ Proof.
 Qed.
 
 (* the property, for the code as it is, except for exhaustion of the Go stack *)
-Lemma no_fatal_partial_code : forall D sc p, leaves_ok D p = true -> class code_sites D sc p <> CFatal.
+Lemma no_fatal_partial_code : forall D sc p, leaves_ok code_sites D p = true -> class code_sites D sc p <> CFatal.
 Proof.
   intros D sc p Hl. unfold class.
   pose proof (guarded_no_fatal code_sites D sc p Hl (guarded_code_sites D p) Main) as H.
@@ -203,7 +224,7 @@ Qed.
 
 (* the property for any placement of recovers: no panic source below an unprotected goroutine boundary *)
 Lemma no_fatal_partial_sites : forall S D sc p,
-  leaves_ok D p = true -> guarded S D p = true -> class S D sc p <> CFatal.
+  leaves_ok S D p = true -> guarded S D p = true -> class S D sc p <> CFatal.
 Proof.
   intros S D sc p Hl Hg. unfold class.
   pose proof (guarded_no_fatal S D sc p Hl Hg Main) as H.
